@@ -67,7 +67,8 @@ def build(run):
     big2 = big.copy()
     big2[600] += 0.25
     MDS = [None, {"quadrature_degree": 2}, {"quadrature_degree": 3}, {"quadrature_degree": 2, "rule": "gauss"},
-           {"w": np.array([0.5, 0.25])}, {"w": np.array([0.5, 0.25 + 1e-10])}, {"p": big}, {"p": big2}, {"quadrature_degree": "2"}]
+           {"w": np.array([0.5, 0.25])}, {"w": np.array([0.5, 0.25 + 1e-10])}, {"p": big}, {"p": big2}, {"quadrature_degree": "2"},
+           {"quadrature_degree": (2, 2)}]      # a per-direction degree: a tuple value under a key that other integrals give a scalar
     SIDS = ["everywhere", 1, 2, (1, 2), (2, 3), (3,)]
     ITYPES = ["dx", "ds"]
     # an integral type registered at run time through the public registry (form compilers add their own): grouping must treat it like
@@ -149,7 +150,11 @@ def build(run):
         doms = ufl.domain.extract_domains(form) if hasattr(ufl.domain, "extract_domains") else form.ufl_domains()
         with warnings.catch_warnings():
             warnings.simplefilter("ignore")
-            out = DA.group_form_integrals(form, doms, do_append_everywhere_integrals=append)
+            try:
+                out = DA.group_form_integrals(form, doms, do_append_everywhere_integrals=append)
+            except (TypeError, IndexError, KeyError, AttributeError) as ex:
+                from ufv.core import crash_text
+                return violated(f"{label} (append={append}): group_form_integrals crashed on a valid form: {crash_text(ex)}", replay={"form": label, "append": append}, reproduced=True, backend="exec")
         w = world()
         # ---- spec side
         groups = {}
@@ -251,8 +256,13 @@ def build(run):
         family_ob(f"pairs/{c}", lambda chunk=chunk: ((lab(p), list(p), False) for p in chunk))
     family_ob("singles", lambda: ((lab((t,)), [t], False) for t in T))
     # shared integrands (second stage merges equal integrands over subdomain ids)
-    base = [t for t in T if t["dom"] == 1 and t["cd"] is None and t["itype"] == "dx" and t["md"] in (0, 1, 4, 5)]
+    base = [t for t in T if t["dom"] == 1 and t["cd"] is None and t["itype"] == "dx" and t["md"] in (0, 1, 4, 5, 9)]
     family_ob("shared-integrand pairs", lambda: ((lab(p) + " (same integrand)", list(p), True) for p in itertools.product(base, repeat=2)))
+    # the same integrand under the same coordinate derivative on one subdomain with DIFFERENT metadata (and on overlapping subdomains): kept apart by metadata
+    base_cd = [t for t in T if t["dom"] == 1 and t["itype"] == "dx" and t["md"] in (0, 1, 2) and t["cd"] in (0, (0, 1)) and t["sid"] in ("everywhere", 1, (1, 2))]
+    base_cd += [dict(t, md=mdi) for t in base_cd if t["md"] == 0 for mdi in (2, 3)]
+    family_ob("shared-integrand pairs under coordinate derivatives", lambda: ((lab(p) + " (same integrand)", list(p), True) for p in itertools.product(base_cd, repeat=2)
+                                                                              if p[0]["cd"] == p[1]["cd"]))
     rnd = random.Random(run.seed + 15)
     ntr = 400 if quick else 6000
     triples = [tuple(rnd.choice(T) for _ in range(3)) for _ in range(ntr)]
